@@ -79,7 +79,15 @@ func constString(v ssa.Value) (string, bool) {
 	return constant.StringVal(c.Value), true
 }
 
+// idxSubst: loop indices that are to be read as a given constant (the binder instantiates `arr[i] = f(i)` for one i).
+var idxSubst map[ssa.Value]int64
+
 func constInt(v ssa.Value) (int64, bool) {
+	if idxSubst != nil {
+		if k, ok := idxSubst[v]; ok {
+			return k, true
+		}
+	}
 	c, ok := v.(*ssa.Const)
 	if !ok || c.Value == nil {
 		return 0, false
@@ -459,9 +467,18 @@ func isPureLeaf(f *ssa.Function) bool {
 // named by their source name instead of their SSA register, so that keys survive unrelated edits.
 func descr(v ssa.Value) string { return descrDepth(v, 0) }
 
+// descrSubst: values that are to be described as given (a helper's parameters as the call's arguments while the
+// helper's arithmetic is read through).
+var descrSubst map[ssa.Value]string
+
 func descrDepth(v ssa.Value, d int) string {
 	if d > 10 {
 		return "..."
+	}
+	if descrSubst != nil {
+		if s, ok := descrSubst[v]; ok {
+			return s
+		}
 	}
 	switch x := v.(type) {
 	case *ssa.Alloc:
